@@ -26,7 +26,7 @@ RULE = (
 ASSUMPTIONS = [
     "non-reversible models are excluded from the re-rooting relation (it does not hold mathematically)",
     "the absolute value of L(A) is anchored by C01",
-    "tolerance 1e-9 relative",
+    "tolerance 1e-9 relative plus the measured conditioning slack of C01; cases with a branch length below 1e-14 are skipped and counted (C01's known finding)",
 ]
 
 REVERSIBLE = {"JC69", "HKY", "GTR", "GeneralJC69", "GeneralSym", "LG", "WAG", "MG94"}
@@ -356,6 +356,13 @@ def body(pc):
     res = Res(nontrivial=(not identity) and phylo.varying_column(A), key=(A, pc["trs"]),
               labels=tuple(kinds) + (m, A["tree"]["kind"], A["tip"]),
               tags={"model": m, "tree": A["tree"]["kind"], "tip": A["tip"], "transform": kinds, "bucket": "+".join(kinds)})
+    from vt.props.c01 import pretags as c01_pretags
+
+    if c01_pretags(A)["tiny_branch"] or c01_pretags(B)["tiny_branch"]:
+        # branch lengths below 1e-14: C01's known finding (P(t) rounds to the identity); not asserted here
+        res.labels = res.labels + ("tiny_branch_skipped",)
+        res.nontrivial = False
+        return res
     va, vb = value(A), value(B)
     if va.size != 1 or vb.size != 1 or not (np.isfinite(va).all() and np.isfinite(vb).all()):
         return res.fail("nonfinite", {"A": va.tolist(), "B": vb.tolist()})
